@@ -22,8 +22,8 @@ for d in sorted(glob.glob(os.path.join(V, "seeded", "C??-[34]"))):
     m["wave"] = 4
     m["base_commit"] = BASE
     json.dump(m, open(mp, "w"), indent=1)
-    ch = "; ".join("%s: exit %s%s" % (k.replace("@scratch", ""), v["exit"], " VIOLATION" if v["violation_lines"] else
-                                       (" (inconclusive)" if v["exit"] == 2 else " (missed)" if v["exit"] == 0 else ""))
+    ch = "; ".join("%s: exit %s%s" % (k.replace("@scratch", ""), v["exit"], " VIOLATION" if v["violation_lines"] else (" (trial not completed)" if v["exit"] is None else
+                                       " (inconclusive)" if v["exit"] == 2 else " (missed)" if v["exit"] == 0 else ""))
                    for k, v in m.get("checks", {}).items())
     print("| %s | %s | %s/%s | %s | %s |" % (os.path.basename(d), flat[:230].replace("|", "/"), m.get("demo_exit_clean_tree"),
                                            m.get("demo_exit_with_change"),
